@@ -11,6 +11,9 @@ def parse_map(line):
     parts = body.split(" | ")
     headp = parts[0].split()
     n = int(headp[1].split("=")[1]); allpos = [x for x in headp[2].split("=")[1].split(",") if x]
+    if len(headp) > 3 and headp[3].startswith("shown="):
+        # the text rendering of the tracker lists exactly the aircraft with details; carried along as a pseudo-entry of allpos
+        allpos = allpos + ["shown:" + x for x in headp[3].split("=")[1].split(",") if x]
     recs = {}
     order = []
     for r in parts[1:]:
@@ -156,6 +159,9 @@ class Ref:
                 if (g2["details"] != "-") != want_det: out.append((i, "C14", "%s: details %s, position/altitude/distance present: %s" % (k2, g2["details"], want_det)))
                 if g2["details"] != "-" and g2["details"].split("/")[0] != g2["e"].split("/")[3] and g2["details"].split("/")[0] != g2["o"].split("/")[3]:
                     out.append((i, "C14", "%s: details altitude %s is not the altitude of a stored report" % (k2, g2["details"].split("/")[0])))
+            shown = [x[6:] for x in allpos if x.startswith("shown:")]; allpos = [x for x in allpos if not x.startswith("shown:")]
+            want_shown = [k2 for k2 in order if recs[k2]["details"] != "-"]
+            if shown != want_shown: out.append((i, "C14", "text rendering of the tracker lists %s, aircraft with details %s" % (shown, want_shown)))
             want_ap = [k2 for k2 in order if recs[k2]["pos"] != "-"]
             if allpos != want_ap: out.append((i, "C14", "position list %s, aircraft with a position %s" % (allpos, want_ap)))
             # track: positioned entries = previously published positions (all but the current one)
